@@ -47,7 +47,8 @@ func (l *fontLRU) Put(k *font.Face, v *harfbuzz.Font) {
 	val := &fontEntry{key: k, v: v}
 	l.m[k] = val
 	l.insert(val)
-	if len(l.m) > l.maxSize {
+	// several entries must go when the maximum size has been reduced
+	for len(l.m) > l.maxSize && l.tail.next != l.head {
 		oldest := l.tail.next
 		l.remove(oldest)
 		delete(l.m, oldest.key)
